@@ -13,7 +13,7 @@ EPS = sys.float_info.epsilon
 
 def cfg_desc(cfg):
     keys = ('expl', 'dynamic', 'alpha', 'n_inner', 'd', 'storage', 'imputer', 'names', 'lbib', 'model',
-            'loss', 'ignored', 'oscale')
+            'loss', 'ignored', 'oscale', 'buffer')
     return ', '.join(f"{k}={cfg[k]}" for k in keys if k in cfg)
 
 
@@ -51,6 +51,17 @@ def product_configs(expl, tier, models=('scalar', 'multi'), wide=False):
                 if k not in seen:
                     seen.add(k)
                     out.append(cfg)
+    return out
+
+
+def buffer_configs(expl):
+    """Configurations whose model returns one pre-allocated output dict, overwritten in place at every call (n_inner = 1:
+    with more inner samples the imputer itself would return the same object n times and no mean over them is defined)."""
+    out = []
+    for cfg in product_configs(expl, 'quick'):
+        if cfg['n_inner'] == 1 and cfg['d'] >= 2 and cfg['storage'] in ('Batch', 'Geometric') and cfg['names'] == 'str' \
+                and cfg['imputer'] in ('joint', 'default') and cfg['model'] in ('scalar', 'multi'):
+            out.append(dict(cfg, buffer=True))
     return out
 
 
